@@ -157,7 +157,10 @@ where
     /// Remove the coefficient of a power in the polynomial
     pub fn purge_coefficient(&mut self, power: usize) {
         match self.coefficients.len() {
-            len if len == power && len != 1 => {
+            // The polynomial has no such power: nothing to remove
+            len if power >= len => {}
+            // The leading coefficient (index len - 1) is removed by shrinking the vector
+            len if len == power + 1 && len != 1 => {
                 self.coefficients.pop();
             }
             _ => {
